@@ -190,6 +190,7 @@ def run(ctx: core.Ctx):
             c = meta[i]
             ctx.violation("kf_dry_run_writes", f"{c['name']}: a path's content changed under --dry-run ({c['codemod']})",
                           {"project": core.b64tree(c["files"]), "codemod": c["codemod"], "options": c["options"], "manifests": c["manifests"]})
+    rc.audit_lifts(ctx)
     # active branch of the table-indexed statement
     tv = ctx.tables or {}
     guards_ok = all("IfNotDryWrite" in (tv.get(k) or []) for k in ("libcst_apply_guards", "regex_apply_guards", "xml_apply_guards")) \
